@@ -84,7 +84,7 @@ def main():
             tail = ch[len(cm):]
             ub_exec[cm[-1] + " -> " + (tail[0] if tail else "nothing")] += 1
             ch = ch[:len(cm)]
-            if tail not in (["crash"], ["survived"]):
+            if not tail or tail[0] not in ("crash", "survived"):
                 bad.append((cid, "after " + cm[-1] + " the harness printed " + repr(tail), ""))
                 continue
         nm, nh = [norm(x) for x in cm], [norm(x) for x in ch]
